@@ -230,6 +230,7 @@ def check(case, ctx):
         ctx.mark_nontrivial(case)
     if C >= 2:
         ctx.label("components>=2")
+    ctx.target(C, "observed-components")
     return fails
 
 
